@@ -233,10 +233,16 @@ func (r *Registry) LoadOutputs(
 		tasks = append(tasks, task)
 	}
 
+	// Wait for all loaders, also after the first one failed: the caller may react to the error by
+	// re-executing the target, which must not race with a restore that is still writing the outputs
+	var loadErr error
 	for _, task := range tasks {
-		if err := task.Wait(); err != nil {
-			return err
+		if err := task.Wait(); err != nil && loadErr == nil {
+			loadErr = err
 		}
+	}
+	if loadErr != nil {
+		return loadErr
 	}
 
 	logger.Debugf("%s: outputs loaded", target.Label)
